@@ -1,6 +1,7 @@
 """C19 - failures of the caller's stream or callbacks pass through (handler inventory)."""
 import sys
 
+from sa import rules_r6b as R6B
 from sa import report, effects as E, rules_fault as RF, rules_state as RS, rules_read as RD, rules_registry as RR
 from sa import rules_extra as RX
 
@@ -29,6 +30,8 @@ def run(ctx, repo):
     ctx.call(RX.r_no_process_state, repo)
     ctx.call(RX.r_dispose_chain, repo, ['loader.SafeLoader', 'loader.FullLoader', 'loader.Loader', 'cyaml.CSafeLoader', 'cyaml.CLoader', 'dumper.SafeDumper', 'dumper.Dumper', 'cyaml.CSafeDumper', 'cyaml.CDumper'])
     ctx.call(RX.r_no_generator_around_callback, repo)
+    ctx.call(R6B.r_finally_bound, repo)
+    ctx.call(R6B.r_no_module_state, repo)
 
 
 if __name__ == '__main__':
